@@ -323,8 +323,9 @@ func checkBalanced(toks []Token) error {
 // reservedCoq lists Coq keywords and the GooseLang notation keywords that
 // cannot be used as a definition name.
 var reservedCoq = map[string]bool{
-	"as": true, "at": true, "cofix": true, "else": true, "end": true, "exists": true, "exists2": true, "fix": true,
-	"for": true, "forall": true, "fun": true, "if": true, "IF": true, "in": true, "let": true, "match": true,
-	"mod": true, "Prop": true, "return": true, "Set": true, "then": true, "Type": true, "using": true,
-	"where": true, "with": true, "SProp": true, "λ": true,
+	"Axiom": true, "CoFixpoint": true, "Definition": true, "Fixpoint": true, "Hypothesis": true, "IF": true, "Parameter": true,
+	"Prop": true, "SProp": true, "Set": true, "Theorem": true, "Type": true, "Variable": true, "as": true, "at": true, "by": true,
+	"cofix": true, "discriminated": true, "else": true, "end": true, "exists": true, "exists2": true, "fix": true, "for": true,
+	"forall": true, "fun": true, "if": true, "in": true, "lazymatch": true, "let": true, "match": true, "multimatch": true,
+	"return": true, "then": true, "using": true, "where": true, "with": true, "λ": true, "mod": true,
 }
